@@ -57,6 +57,8 @@ def main():
         for name, meta, res in srows:
             det = ", ".join(f"{p} ({c['seconds']}s)" for p, c in res.get("checks", {}).items() if c["exit"] == 1)
             mis = ", ".join(p for p, c in res.get("checks", {}).items() if c["exit"] != 1)
+            if meta.get("not_covered") and mis:
+                mis += " (not covered: outside a stated assumption)"
             out.append(f"| {name} | {meta['property']} | {meta['what']} | {meta['needs']} | "
                        f"{'yes' if res.get('tests_pass_with_change') else 'no'} | "
                        f"{res.get('demo_exit_with_change')} / {res.get('demo_exit_without_change')} | {meta.get('first_run', '')} | {det} | {mis} |")
